@@ -91,6 +91,14 @@ register("C15",
          "Trusted: Coq kernel; gen_setiter.py scanner (types set-valued names syntactically) trusted to list every set iteration; CPython hash randomisation as the only source of set-order nondeterminism. No axioms.",
          "Coq proof of permutation-invariance of sorted iteration + regenerated site obligation; multi-process byte comparison", "DESIGN.md section 6/C15")
 
+register("C07",
+         "Machine-checked Coq theorems for EVERY timestamp (Z microseconds, unbounded): truncation to hour/day/ISO week/month/quarter/year is the floor onto the bucket starts (C07_floor; era-periodicity lemmas + one exhaustive 400-year sweep lifted to all Z); "
+         "additive roll-up of SUM and COUNT from any nested finer granularity for every table (C07_additive_*; from floor composition + a regrouping lemma); the default-time-dimension step keeps requested dimensions and adds only a model's default time dimension, only with a requested metric and no requested time dimension; "
+         "a granularity on a non-time field is an error. Grouping by several granularities is an instance of C01_rows. Ties: extracted calendar vs DuckDB DATE_TRUNC on calendar edges (thorough: every hour of a 28-year cycle); time-granularity queries vs the Single model; "
+         "the default-dimension function vs its model; additivity and the iff re-checked directly on the implementation.",
+         "Trusted: Coq kernel (vm_compute sweeps); Base/Calendar.v hand-written, tied to DuckDB by correspondence; Model/TimeDim.v hand-written model; extraction (ExtrOcamlBasic). Only the completeness half of the default-dimension iff is checked by the oracle rather than proved. No axioms.",
+         "Coq proof (calendar floor for all Z, regrouping induction) + correspondence vs DuckDB and the generator", "DESIGN.md section 6/C07")
+
 PENDING = "check not built yet in this revision (see DESIGN.md section 10 build order)"
 
 
